@@ -405,6 +405,9 @@ func main() {
 	case "ix":
 		runIx(n)
 		return
+	case "ttl":
+		runTTL(n)
+		return
 	case "lk":
 		runLK(n)
 		return
